@@ -594,6 +594,8 @@ class List(list, base.Symbolic, pg_typing.CustomTyping):
           updates.append(update)
       if flags.is_change_notification_enabled() and updates:
         self._notify_field_updates(updates)
+      else:
+        self._sym_reset_content_caches()
     elif isinstance(index, numbers.Integral):
       if index < -len(self) or index >= len(self):
         raise IndexError(
@@ -602,6 +604,8 @@ class List(list, base.Symbolic, pg_typing.CustomTyping):
       update = self._set_item_without_permission_check(index, value)
       if flags.is_change_notification_enabled() and update:
         self._notify_field_updates([update])
+      else:
+        self._sym_reset_content_caches()
     else:
       raise TypeError(
           f'list assignment index must be an integer. Encountered {index!r}.')
@@ -633,6 +637,8 @@ class List(list, base.Symbolic, pg_typing.CustomTyping):
     update = self._remove_item_without_permission_check(index)
     if flags.is_change_notification_enabled():
       self._notify_field_updates([update])
+    else:
+      self._sym_reset_content_caches()
 
   def _remove_item_without_permission_check(
       self, index: int) -> base.FieldUpdate:
@@ -696,6 +702,8 @@ class List(list, base.Symbolic, pg_typing.CustomTyping):
     update = self._set_item_without_permission_check(len(self), value)
     if flags.is_change_notification_enabled() and update:
       self._notify_field_updates([update])
+    else:
+      self._sym_reset_content_caches()
 
   def insert(self, index: int, value: Any) -> None:
     """Inserts an item at a given position."""
@@ -709,6 +717,8 @@ class List(list, base.Symbolic, pg_typing.CustomTyping):
         index, mark_as_insertion(value))
     if flags.is_change_notification_enabled() and update:
       self._notify_field_updates([update])
+    else:
+      self._sym_reset_content_caches()
 
   def pop(self, index: int = -1) -> Any:
     """Pop an item and return its value."""
@@ -764,6 +774,8 @@ class List(list, base.Symbolic, pg_typing.CustomTyping):
 
     if flags.is_change_notification_enabled() and updates:
       self._notify_field_updates(updates)
+    else:
+      self._sym_reset_content_caches()
 
   def clear(self) -> None:
     """Clears the list."""
@@ -801,6 +813,7 @@ class List(list, base.Symbolic, pg_typing.CustomTyping):
   def _notify_repositioned(self, old_values: typing.List[Any]) -> None:
     """Notifies the positions whose value differs from `old_values`."""
     if not flags.is_change_notification_enabled():
+      self._sym_reset_content_caches()
       return
     new_values = list(self.sym_values())
     field = self._value_spec.element if self._value_spec else None
